@@ -23,9 +23,13 @@ def build(case, d):
     else:
         scl, offs, wts = np.ones((nsub, 4 * C)), np.zeros((nsub, 4 * C)), np.ones((nsub, C))
     p = d / "t.sf"
+    # ZERO_OFF: absent-like 0.0, a half-integer (the Parkes convention), or the mid-level written as a float or as an
+    # INTEGER card (legal FITS; astropy then hands the reader a Python int)
+    zo = {"zero": 0.0, "half": (1 << (nbits - 1)) - 0.5, "float": float(1 << (nbits - 1)),
+          "int": int(1 << (nbits - 1))}[case.get("zoff", "zero")]
     pfitsgen.write_psrfits(str(p), raw, nsblk, nbits, case["asc"], FCH1, FOFF, TSAMP, scl, offs, wts, case["pol"],
-                           chan_bw_sign=case.get("chanbw", "consistent"))
-    want = pfitsgen.expected_total_intensity(raw, nsblk, case["asc"], scl, offs, wts, case["pol"])
+                           zero_off=zo, chan_bw_sign=case.get("chanbw", "consistent"))
+    want = pfitsgen.expected_total_intensity(raw, nsblk, case["asc"], scl, offs, wts, case["pol"], zero_off=float(zo))
     return p, want
 
 
@@ -49,6 +53,7 @@ class C18(Prop):
         c = {"kind": kind, "nsblk": nsblk, "nsub": nsub, "C": rng.choice((4, 8)), "nbits": rng.choice((4, 8)),
              "pol": rng.choice(("IQUV", "AABBCRCI")), "asc": rng.random() < 0.5, "cal": rng.random() < 0.6,
              "chanbw": rng.choice(("consistent", "consistent", "unsigned", "opposite")),
+             "zoff": rng.choice(("zero", "half", "float", "int", "int")),
              "dseed": rng.randrange(1 << 30)}
         N = nsblk * nsub
         if kind == "read_plan":
